@@ -521,8 +521,8 @@ def opEcDec (a : List String) : M String :=
     (match unhexArg sigs with
      | some (some sig) =>
        (match decodeECDSASignature (orderSize (curveBits cn)) sig with
-        | none => some "res=err verification"
-        | some _ => some "res=?oracle")
+        | none => some "sigres=err verification"
+        | some _ => some "sigres=?oracle")
      | _ => some "bad-op")
   | _ => some "bad-op"
 
